@@ -2,7 +2,7 @@
 # usage: tools/verify_seed.sh <Cxx> <variant>   (reads /tmp/seed-out/<Cxx>/<variant>/)
 # Confirms in a scratch worktree of /repo HEAD: patch applies, builds, 144 tests pass, demo fails with the patch and passes without.
 set -u
-ID=$1; V=$2; SRC=/tmp/seed-out/$ID/$V
+ID=$1; V=$2; SRC=${SEED_ROOT:-/tmp/seed-out}/$ID/$V
 WT=/tmp/vseed/$ID-$V
 export CARGO_NET_OFFLINE=true CARGO_TARGET_DIR=/tmp/vseed-target
 mkdir -p /tmp/vseed
